@@ -249,21 +249,21 @@ def h_read_sync(H):
 @harness(PROPERTY, "read_sync_nidq_analog", functions=["spikeglx:Reader.read_sync", "spikeglx:Reader.read_sync_analog", "spikeglx:Reader.read", "spikeglx:_get_analog_sync_trace_indices_from_meta"],
          clause="digital lines first and thresholded analog lines after them: each analog sync channel is compared with the threshold after removing its own floor")
 def h_read_sync_nidq(H):
-    for nxa in (1, 2):
-        S = H.session(f"read_sync.nidq.xa{nxa}")
+    for nxa, nma in ((1, 0), (2, 0), (1, 2), (2, 1)):
+        S = H.session(f"read_sync.nidq.xa{nxa}.ma{nma}")
 
-        def body(it, nxa=nxa):
+        def body(it, nxa=nxa, nma=nma):
             ns, a, b = z3.Ints("ns a b")
             thr = z3.Real("threshold")
             it.ctx.assume(z3.And(ns >= 1, a >= 0, a < b, b <= ns, thr > 0))     # a threshold <= 0 would turn the zeros written first into ones (not a TTL threshold)
             nmn = 1
-            nc = nmn + nxa + 1
+            nc = nmn + nma + nxa + 1            # MN | MA | XA | DW blocks: the analog sync lines are the XA block
             raw = A.fresh_array("raw", "int16", (ns, nc))
             s2v = A.fresh_array("s2v", "float64", (nc,))
-            meta = {"typeThis": "nidq", "nSavedChans": nc, "snsMnMaXaDw": [nmn, 0, nxa, 1]}
+            meta = {"typeThis": "nidq", "nSavedChans": nc, "snsMnMaXaDw": [nmn, nma, nxa, 1]}
             obj = SObj(spikeglx.Reader, _raw=raw, meta=meta, is_open=True, channel_conversion_sample2v={"nidq": s2v}, type="nidq")
             out = run_function(it, spikeglx.Reader.read_sync, [obj, slice(SV(a), SV(b))], {"threshold": SV(thr)})
-            tag = f"xa{nxa}"
+            tag = f"xa{nxa}.ma{nma}"
             it.ctx.oblige(f"read_sync.nidq.shape.{tag}", z3.And(z3.BoolVal(out.ndim == 2), A.T(out.shape[0]) == b - a, A.T(out.shape[1]) == 16 + nxa), "post", "one row per sample, 16 digital lines then one line per analog sync channel")
             i = z3.Int("i")
             it.ctx.assume(z3.And(i >= 0, i < b - a))
@@ -275,8 +275,8 @@ def h_read_sync_nidq(H):
             if okf:
                 fl = floors[0]
                 for j in range(nxa):
-                    volts = A.cast_term("int16", "float32", raw.read((a + i, nmn + j)))
-                    v = volts * s2v.read((z3.IntVal(nmn + j),))
+                    volts = A.cast_term("int16", "float32", raw.read((a + i, nmn + nma + j)))
+                    v = volts * s2v.read((z3.IntVal(nmn + nma + j),))
                     it.ctx.oblige(f"read_sync.nidq.floor_input.{j}.{tag}", fl["input"]((i, z3.IntVal(j))) == v, "post", "the floor is computed from that channel's calibrated samples", assume=False)
                     it.ctx.oblige(f"read_sync.nidq.analog_line.{j}.{tag}", out.read((i, z3.IntVal(16 + j))) == z3.If(v - fl["out"](z3.IntVal(j)) >= thr, 1, 0), "post",
                                   "analog line j is 1 exactly where channel j minus its floor reaches the threshold", assume=False)
@@ -323,15 +323,18 @@ def b_native(B):
         B.case(("analog", t), got.tolist() == wantr, detail="analog rises")
 
 
-def _nidq_recording(folder, name, analog_volts, words):
-    """a NIDQ recording with na analog sync channels + one digital word, metadata derived from the shipped nidq fixture"""
+def _nidq_recording(folder, name, analog_volts, words, aux_volts=None):
+    """a NIDQ recording with (optional) nma auxiliary analog (MA) channels, na analog sync (XA) channels and one digital word,
+    metadata derived from the shipped nidq fixture"""
     import pathlib
     fix = pathlib.Path(spikeglx.__file__).parent / "tests" / "fixtures" / "sample3B_g0_t0.nidq.meta"
     ns, na = analog_volts.shape
-    nc = na + 1
+    nma = 0 if aux_volts is None else aux_volts.shape[1]
+    nc = nma + na + 1
     fs = 30003.0003
-    rep = {"acqMnMaXaDw": f"0,0,{na},1", "snsMnMaXaDw": f"0,0,{na},1", "nSavedChans": f"{nc}", "fileSizeBytes": f"{ns * nc * 2}", "fileTimeSecs": f"{ns / fs}",
-           "niXAChans1": "0" if na == 1 else f"0:{na - 1}", "~snsChanMap": f"(0,0,{na},1,1)" + "".join(f"(XA{i};{i}:{i})" for i in range(na)) + f"(XD0;{na}:{na})"}
+    cmap = "".join(f"(MA{i};{i}:{i})" for i in range(nma)) + "".join(f"(XA{i};{nma + i}:{nma + i})" for i in range(na)) + f"(XD0;{nma + na}:{nma + na})"
+    rep = {"acqMnMaXaDw": f"0,{nma},{na},1", "snsMnMaXaDw": f"0,{nma},{na},1", "nSavedChans": f"{nc}", "fileSizeBytes": f"{ns * nc * 2}", "fileTimeSecs": f"{ns / fs}",
+           "niXAChans1": "0" if na == 1 else f"0:{na - 1}", "~snsChanMap": f"(0,{nma},{na},1,1)" + cmap, "niMAGain": "1"}
     lines = []
     for line in fix.read_text().splitlines():
         k = line.split("=", maxsplit=1)[0]
@@ -339,13 +342,15 @@ def _nidq_recording(folder, name, analog_volts, words):
     b = pathlib.Path(folder) / f"{name}.nidq.bin"
     b.with_suffix(".meta").write_text("\n".join(lines) + "\n")
     D = np.zeros((ns, nc), dtype=np.int16)
-    D[:, :na] = np.round(analog_volts / 5 * 32768).astype(np.int16)
+    if nma:
+        D[:, :nma] = np.round(aux_volts / 5 * 32768).astype(np.int16)
+    D[:, nma:nma + na] = np.round(analog_volts / 5 * 32768).astype(np.int16)
     D[:, -1] = words.astype(np.uint16).view(np.int16)
     D.tofile(b)
     return b
 
 
-@bounded(PROPERTY, "native_nidq_analog_sync", bound="NIDQ recordings of 3000 samples with 1, 2 and 3 analog sync channels at DC offsets {0, 2.5, 1.0} V carrying 10 pulses each + 4 digital lines with 8 events each; read_sync over the whole file "
+@bounded(PROPERTY, "native_nidq_analog_sync", bound="NIDQ recordings of 3000 samples with 1, 2 and 3 analog sync channels (and 0..2 auxiliary analog channels saved before them) at DC offsets {0, 2.5, 1.0} V carrying 10 pulses each + 4 digital lines with 8 events each; read_sync over the whole file "
          "and over a slice; fronts of every returned column against the trains written", clause="digital lines first, thresholded analog lines after them; every TTL train written is recovered")
 def b_nidq(B):
     import tempfile
@@ -354,7 +359,7 @@ def b_nidq(B):
     ns = 3000
     d = tempfile.mkdtemp(prefix="c10_")
     try:
-        for na in (1, 2, 3):
+        for na, nma in ((1, 0), (2, 0), (3, 0), (1, 2), (2, 1)):
             dig = np.zeros((ns, 16), np.int64)
             for ln in rng.choice(16, 4, replace=False):
                 st = np.zeros(ns, np.int64)
@@ -370,7 +375,12 @@ def b_nidq(B):
                     s0 = 60 + 37 * j + k * 280
                     ttl[s0: s0 + 25 + 5 * j, j] = 1
             volts = dc + ttl * amp + rng.normal(0, 0.01, (ns, na))
-            f = _nidq_recording(d, f"xa{na}", volts, words)
+            aux = None
+            if nma:
+                # auxiliary analog channels saved before the sync lines carry an unrelated square wave
+                tt = np.arange(ns)[:, None]
+                aux = 1.5 + 2.0 * (((tt + 13 * np.arange(nma)[None, :]) // 170) % 2) + rng.normal(0, 0.01, (ns, nma))
+            f = _nidq_recording(d, f"xa{na}ma{nma}", volts, words, aux)
             bad = []
             with spikeglx.Reader(f) as sr:
                 for sl in (slice(0, ns), slice(40, 2900)):
@@ -386,6 +396,6 @@ def b_nidq(B):
                         i0, p0 = U.fronts(ttl[sl, j])
                         if not (np.array_equal(i1, i0) and np.array_equal(p1, p0)):
                             bad.append(("analog line", j, f"{i0.size} events written, {i1.size} recovered"))
-            B.case(("nidq", na), not bad, detail=bad[:4])
+            B.case(("nidq", na, nma), not bad, detail=bad[:4])
     finally:
         shutil.rmtree(d, ignore_errors=True)
